@@ -93,6 +93,83 @@ example :
         (List.map fun s => (s.1 0, s.2.1 0, s.2.2 0))
       = .ok [(5, 0, 10), (5, 1, 10), (6, 2, 12)] := by decide +kernel
 
+/-! ## signal level: homogeneous systems commute with a scaling of all signals -/
+
+/-- **simulate_smul**: for a system whose maps are homogeneous of degree 1, scaling the input
+function and the initial state by `c ≠ 0` scales the whole discrete-time response (states, inputs,
+outputs) by `c`, and an error stays the same error: the response carries no absolute scale. -/
+theorem simulate_smul (G : IOSys σ ι o K) (hG : Homog G) (c : K) (hc : c ≠ 0)
+    (uf uf' : K → Except Err (ι → K)) (huf : ∀ t, uf' t = (uf t).map (c • ·)) :
+    ∀ (ts : List K) (x0 : σ → K),
+      simulate G uf' ts (c • x0) =
+        (simulate G uf ts x0).map (List.map fun s => (c • s.1, c • s.2.1, c • s.2.2)) := by
+  intro ts
+  induction ts with
+  | nil => intro x0; rfl
+  | cons t ts ih =>
+    intro x0
+    simp only [simulate, huf t]
+    cases hu : uf t with
+    | error e => rfl
+    | ok u =>
+      simp only [Except.map]
+      rw [(hG c hc t x0 u).2, (hG c hc t x0 u).1]
+      cases hy : G.h t x0 u with
+      | error e => rfl
+      | ok y =>
+        cases hx : G.f t x0 u with
+        | error e => rfl
+        | ok x' =>
+          simp only [Except.map]
+          rw [ih x']
+          cases hr : simulate G uf ts x' with
+          | error e => rfl
+          | ok rest => rfl
+
+section UfunScale
+variable [LinearOrder K]
+
+/-- the interpolated input of scaled samples is the scaled interpolated input. -/
+theorem ufun_smul (T : List K) (U : List (ι → K)) (c t : K) :
+    ufun T (U.map (c • ·)) t = (ufun T U t).map (c • ·) := by
+  unfold ufun
+  simp only [List.getElem?_map]
+  generalize clipIdx (searchLeft T t) 1 (T.length - 1) = idx
+  cases T[idx - 1]? <;> cases T[idx]? <;> cases U[idx - 1]? <;> cases U[idx]? <;>
+    simp only [Option.map, Except.map]
+  rename_i t0 t1 u0 u1
+  split
+  · rfl
+  · simp only [Except.ok.injEq]
+    funext i
+    simp only [Pi.smul_apply, smul_eq_mul]
+    ring
+
+/-- **response_smul**: input samples and initial state times `c` give the response times `c`. -/
+theorem response_smul (G : IOSys σ ι o K) (hG : Homog G) (c : K) (hc : c ≠ 0) (T : List K)
+    (U : List (ι → K)) (ts : List K) (x0 : σ → K) :
+    simulate G (ufun T (U.map (c • ·))) ts (c • x0) =
+      (simulate G (ufun T U) ts x0).map (List.map fun s => (c • s.1, c • s.2.1, c • s.2.2)) :=
+  simulate_smul G hG c hc _ _ (fun t => ufun_smul T U c t) ts x0
+
+end UfunScale
+
+/-- a linear system is homogeneous. -/
+theorem ofSS_homog [Fintype σ] [Fintype ι] (G : SS σ ι o K) : Homog (ofSS G) := by
+  intro c _ t x u
+  simp [ofSS, Except.map, Matrix.mulVec_smul, smul_add]
+
+/-- non-vacuity: the accumulator `x⁺ = x + u`, `y = 2x` at the level `2⁻⁴⁰`: the response is the
+response at level 1 times `2⁻⁴⁰`. -/
+example :
+    (simulate (ofSS (⟨!![1], !![1], !![2], !![0]⟩ : SS (Fin 1) (Fin 1) (Fin 1) ℚ))
+      (ufun [0, 1, 2] ([fun _ => 1, fun _ => 3, fun _ => -1].map ((1 / 2 ^ 40 : ℚ) • ·))) [0, 1, 2]
+      ((1 / 2 ^ 40 : ℚ) • fun _ => 5)).map (List.map fun s => (s.1 0, s.2.1 0, s.2.2 0))
+      = .ok [(5 / 2 ^ 40, 1 / 2 ^ 40, 10 / 2 ^ 40), (6 / 2 ^ 40, 3 / 2 ^ 40, 12 / 2 ^ 40),
+             (9 / 2 ^ 40, -1 / 2 ^ 40, 18 / 2 ^ 40)] := by
+  rw [response_smul _ (ofSS_homog _) _ (by norm_num)]
+  decide +kernel
+
 /-! ## `ufun`: interpolation of the input samples -/
 
 section Ufun
@@ -349,6 +426,71 @@ theorem ic2_rhs (G₁ : IOSys σ₁ ι₁ o₁ K) (G₂ : IOSys σ₂ ι₂ o₂
         injection h with h
         subst h
         exact ⟨r.1, y₁, y₂, h1, h2, by rw [← hyl]; exact hul, by simpa using hx₁, by simpa using hx₂⟩
+
+/-- **ic2_homog**: an interconnection of two homogeneous subsystems (any connection, input and
+output maps) is homogeneous: the loop of `_compute_static_io` takes the same number of rounds and
+raises "algebraic loop detected" in exactly the same cases at every signal level `c ≠ 0`, and
+`_rhs` / `_out` of the interconnection scale with the signals. -/
+theorem ic2_homog (G₁ : IOSys σ₁ ι₁ o₁ K) (G₂ : IOSys σ₂ ι₂ o₂ K) (h₁ : Homog G₁) (h₂ : Homog G₂)
+    (Cm : Matrix (ι₁ ⊕ ι₂) (o₁ ⊕ o₂) K) (Im : Matrix (ι₁ ⊕ ι₂) ι K)
+    (Om : Matrix o ((o₁ ⊕ o₂) ⊕ (ι₁ ⊕ ι₂)) K) : Homog (ic2 G₁ G₂ Cm Im Om) := by
+  intro c hc t x u
+  have hit := iterate_scale (step2 G₁ G₂ Cm Im t x u) (step2 G₁ G₂ Cm Im t (c • x) (c • u))
+    (fun v => c • v) (fun v => c • v) (smul_injective_fun c hc)
+    (fun ul => step2_smul G₁ G₂ h₁ h₂ Cm Im c hc t x u ul) 3 (Im.mulVec u)
+  have hI : Im.mulVec (c • u) = c • Im.mulVec u := Matrix.mulVec_smul _ _ _
+  have e1 : (c • x) ∘ Sum.inl = c • (x ∘ Sum.inl) := rfl
+  have e2 : (c • x) ∘ Sum.inr = c • (x ∘ Sum.inr) := rfl
+  constructor
+  · simp only [ic2, hI]
+    rw [hit]
+    cases iterate (step2 G₁ G₂ Cm Im t x u) 3 (Im.mulVec u) with
+    | error e => rfl
+    | ok r =>
+      have e3 : (c • r.1) ∘ Sum.inl = c • (r.1 ∘ Sum.inl) := rfl
+      have e4 : (c • r.1) ∘ Sum.inr = c • (r.1 ∘ Sum.inr) := rfl
+      simp only [Except.map, Prod.map, e1, e2, e3, e4, (h₁ c hc t _ _).1, (h₂ c hc t _ _).1]
+      cases G₁.f t (x ∘ Sum.inl) (r.1 ∘ Sum.inl) with
+      | error e => rfl
+      | ok x₁ =>
+        cases G₂.f t (x ∘ Sum.inr) (r.1 ∘ Sum.inr) with
+        | error e => rfl
+        | ok x₂ =>
+          simp only [Except.map, Except.ok.injEq]
+          funext i; cases i <;> rfl
+  · simp only [ic2, hI]
+    rw [hit]
+    cases iterate (step2 G₁ G₂ Cm Im t x u) 3 (Im.mulVec u) with
+    | error e => rfl
+    | ok r =>
+      simp only [Except.map, Prod.map, Except.ok.injEq]
+      have : Sum.elim (c • r.2) (c • r.1) = c • Sum.elim r.2 r.1 := by
+        funext i; cases i <;> rfl
+      rw [this, Matrix.mulVec_smul]
+
+/-- the same for an interconnection with one subsystem. -/
+theorem ic1_homog (G : IOSys σ₁ ι₁ o₁ K) (hG : Homog G) (Cm : Matrix ι₁ o₁ K) (Im : Matrix ι₁ ι K)
+    (Om : Matrix o (o₁ ⊕ ι₁) K) : Homog (ic1 G Cm Im Om) := by
+  intro c hc t x u
+  have hit := iterate_scale (step1 G Cm Im t x u) (step1 G Cm Im t (c • x) (c • u))
+    (fun v => c • v) (fun v => c • v) (smul_injective_fun c hc)
+    (fun ul => step1_smul G hG Cm Im c hc t x u ul) 2 (Im.mulVec u)
+  have hI : Im.mulVec (c • u) = c • Im.mulVec u := Matrix.mulVec_smul _ _ _
+  constructor
+  · simp only [ic1, hI]
+    rw [hit]
+    cases iterate (step1 G Cm Im t x u) 2 (Im.mulVec u) with
+    | error e => rfl
+    | ok r => simp only [Except.map, Prod.map, (hG c hc t _ _).1]
+  · simp only [ic1, hI]
+    rw [hit]
+    cases iterate (step1 G Cm Im t x u) 2 (Im.mulVec u) with
+    | error e => rfl
+    | ok r =>
+      simp only [Except.map, Prod.map, Except.ok.injEq]
+      have : Sum.elim (c • r.2) (c • r.1) = c • Sum.elim r.2 r.1 := by
+        funext i; cases i <;> rfl
+      rw [this, Matrix.mulVec_smul]
 
 end IC
 
@@ -610,6 +752,26 @@ theorem mul_linear [Fintype ι] [DecidableEq ι] [Fintype ι₁] [DecidableEq ι
 
 end Linear
 
+/-- **ops_homog**: `+`, `-`, negation and feedback of homogeneous systems are homogeneous. -/
+theorem ops_homog [Fintype ι] [DecidableEq ι] [Fintype o] [DecidableEq o]
+    (G₁ : IOSys σ₁ ι o K) (G₂ : IOSys σ₂ ι o K) (G₃ : IOSys σ o ι K) (sign : K)
+    (h₁ : Homog G₁) (h₂ : Homog G₂) (h₃ : Homog G₃) :
+    Homog (add G₁ G₂) ∧ Homog (sub G₁ G₂) ∧ Homog (neg G₁) ∧ Homog (feedback G₁ G₃ sign) :=
+  ⟨ic2_homog _ _ h₁ h₂ _ _ _, ic2_homog _ _ h₁ h₂ _ _ _, ic1_homog _ h₁ _ _ _, ic2_homog _ _ h₁ h₃ _ _ _⟩
+
+/-- `*` (series connection) of homogeneous systems is homogeneous. -/
+theorem mul_homog [Fintype ι] [DecidableEq ι] [Fintype ι₁] [DecidableEq ι₁] [Fintype o] [DecidableEq o]
+    (G₁ : IOSys σ₁ ι₁ o K) (G₂ : IOSys σ₂ ι ι₁ K) (h₁ : Homog G₁) (h₂ : Homog G₂) :
+    Homog (mul G₁ G₂) := ic2_homog _ _ h₂ h₁ _ _ _
+
+/-- non-vacuity: a loop of two linear systems built by the operators is homogeneous, so its
+response at any signal level is the scaled response (`response_smul`). -/
+example (S₁ S₂ : SS (Fin 2) (Fin 1) (Fin 1) ℚ) :
+    Homog (feedback (mul (ofSS S₁) (ofSS S₂)) (ofSS S₂) (-1)) :=
+  (ops_homog _ (ofSS S₁) _ _ (mul_homog _ _ (ofSS_homog _) (ofSS_homog _)) (ofSS_homog _)
+    (ofSS_homog _)).2.2.2
+
+
 end Ops
 
 /-! ## `_process_vector_argument` -/
@@ -730,6 +892,56 @@ theorem opPoint_sound {n m p : Nat} (S : OpSpec n m p) (G : IOSys (Fin n) (Fin m
         exact scatter_of_not_mem _ _ _ i hi
       · intro i hi
         exact scatter_of_not_mem _ _ _ i hi
+
+/-- which equilibrium condition `find_operating_point` imposes is decided by the timebase alone
+(`sys.isdtime(strict=True)`): the fixed-point condition `f(x,u) = x + dx0` exactly for `dt = True`
+and `dt > 0`; a system whose timebase is unspecified (`dt = None`, simulated as continuous time) or
+`0` gets `f(x,u) = dx0`. -/
+theorem opProblem_discrete (G : DIO) (t : Q) (X0 U0 Y0 : VArg) (dx0 : Option (List Q))
+    (iu iy ix idx : Option (List Int)) (S : OpSpec G.n G.m G.p)
+    (h : opProblem G t X0 U0 Y0 dx0 iu iy ix idx = .ok S) :
+    S.discrete = (match G.dt with
+      | .dtrue => true
+      | .disc _ => true
+      | _ => false) := by
+  unfold opProblem at h
+  simp only [bind, Except.bind, pure, Except.pure] at h
+  repeat' split at h
+  all_goals first
+    | contradiction
+    | (injection h with h; subst h; first | rfl | (split <;> simp_all))
+
+/-- **opPoint_unspecified_timebase**: for a system with `dt = None` (or `dt = 0`) a root of
+`rootfun` is a point where the constrained updates equal the requested derivatives `dx0`
+(default 0) — never the discrete-time fixed-point condition. -/
+theorem opPoint_unspecified_timebase (G : DIO) (t : Q) (X0 U0 Y0 : VArg) (dx0 : Option (List Q))
+    (iu iy ix idx : Option (List Int)) (S : OpSpec G.n G.m G.p) (env : ParamEnv)
+    (hdt : G.dt = .none ∨ G.dt = .cont)
+    (h : opProblem G t X0 U0 Y0 dx0 iu iy ix idx = .ok S)
+    (z r : List Q) (x : Fin G.n → Q) (u : Fin G.m → Q) (y : Fin G.p → Q)
+    (hr : S.rootfun (G.build env) z = .ok r) (h0 : ∀ e ∈ r, e = 0)
+    (hres : S.result (G.build env) z = .ok (x, u, y)) :
+    ∃ fx, (G.build env).f S.t x u = .ok fx ∧
+      ∀ i ∈ S.idx.derivVars, fx i = (S.dx0.map (· i)).getD 0 := by
+  have hd : S.discrete = false := by
+    rw [opProblem_discrete G t X0 U0 Y0 dx0 iu iy ix idx S h]
+    rcases hdt with hdt | hdt <;> simp [hdt]
+  obtain ⟨_, ⟨fx, hfx, hall⟩, _⟩ := opPoint_sound S (G.build env) z r x u y hr h0 hres
+  refine ⟨fx, hfx, fun i hi => ?_⟩
+  have := hall i hi
+  rw [this]
+  cases hdx : S.dx0 <;> simp [OpSpec.target, hd, hdx]
+
+/-- non-vacuity: `ẋ = -2x + u` with unspecified timebase, `u = 1` fixed: the problem is posed with
+the continuous-time condition and `x = 1/2` (where `f = 0`) is its root; the fixed point of the map
+(`x = 1/3`) is not. -/
+example :
+    let G : DIO := ⟨1, 1, 1, .none, [], fun _ => ⟨fun _ x u => .ok (fun i => -2 * x i + u i),
+      fun _ x _ => .ok x⟩, none, true⟩
+    (opProblem G 0 (.scalar 0) (.scalar 1) .none none none none none none).map
+      (fun S => (S.discrete, S.rootfun (G.build []) [1 / 2], S.rootfun (G.build []) [1 / 3]))
+      = .ok (false, .ok [0], .ok [1 / 3]) := by
+  decide +kernel
 
 /-- without index lists and without `y0`: all states vary, the inputs are fixed, every update
 is constrained. -/
